@@ -44,7 +44,10 @@ class Sandbox:
         e.update({'HOME': self.home, 'AGENTPACK_HOME': self.aphome, 'AGENTPACK_MACHINE_ID': self.machine,
                   'GIT_CONFIG_GLOBAL': os.path.join(self.root, 'gitconfig'), 'GIT_CONFIG_NOSYSTEM': '1',
                   'GIT_AUTHOR_NAME': 'v', 'GIT_AUTHOR_EMAIL': 'v@example.com',
-                  'GIT_COMMITTER_NAME': 'v', 'GIT_COMMITTER_EMAIL': 'v@example.com', 'NO_COLOR': '1'})
+                  'GIT_COMMITTER_NAME': 'v', 'GIT_COMMITTER_EMAIL': 'v@example.com', 'NO_COLOR': '1',
+                  # the sandbox lives under /verif/.build and /verif is a git repository: a sandbox project that is not
+                  # (or no longer) a repository of its own must not resolve to /verif as its project root
+                  'GIT_CEILING_DIRECTORIES': os.path.realpath(self.root) + ':' + self.root})
         if extra: e.update(extra)
         return e
     def git_init_project(self):
